@@ -33,7 +33,7 @@ ORACLE = {
     " dominant sixth": "1 3 5 6 b7", " sixth ninth": "1 3 5 6 9", " dominant ninth": "1 3 5 b7 9",
     " dominant flat ninth": "1 3 5 b7 b9", " dominant sharp ninth": "1 3 5 b7 #9",
     " major ninth": "1 3 5 7 9", " minor ninth": "1 b3 5 b7 9", " lydian dominant seventh": "1 3 5 b7 #11",
-    " minor eleventh": "1 b3 5 b7 11", " major thirteenth": "1 3 5 7 9 13",
+    " minor eleventh": "1 b3 5 b7 11", " major eleventh": "1 3 5 7 11", " major thirteenth": "1 3 5 7 9 13",
     " minor thirteenth": "1 b3 5 b7 9 13", " dominant thirteenth": "1 3 5 b7 9 13",
     " dominant flat five": "1 3 b5 b7", " hendrix chord": "1 3 5 b7 b3", " perfect fifth": "1 5",
 }
